@@ -254,6 +254,25 @@ class PC(explore.Problem):
         return {'m': W.compile_inmem(self.spec)}
 
     def step(self, st, op):
+        """the operation, followed by a read of every range path already in the model and of its member cells
+        (the reads are part of the transition, so replaying a history reproduces them)"""
+        obs = self._op(st, op)
+        m = st['m']
+        reads = []
+        if obs[0] != 'exc':
+            for r in self.rpaths:
+                if r not in m.cell_map:
+                    continue
+                try:
+                    rv = m.evaluate(r)
+                    cells = [[m.evaluate(c) for c in row] for row in self.members(r)]
+                    reads.append((r, rv, cells))
+                except Exception as exc:
+                    reads.append((r, ('exc', type(exc).__name__, str(exc)[-120:]), None))
+        st['reads'] = reads
+        return obs
+
+    def _op(self, st, op):
         m = st['m']
         try:
             if op[0] == 'ev':
@@ -281,16 +300,9 @@ class PC(explore.Problem):
     def check(self, st, hist, op, obs):
         if obs[0] == 'exc':
             return f'{op} raised {obs[1]}: {obs[2]}'
-        m = st['m']
-        for r in self.rpaths:
-            if r not in m.cell_map:
-                continue          # the path was not brought into the model yet
-            try:
-                rv = m.evaluate(r)
-                grid = self.members(r)
-                cells = [[m.evaluate(c) for c in row] for row in grid]
-            except Exception as exc:
-                return f'after {op}: evaluating {r} and its member cells raised {type(exc).__name__}: {str(exc)[-120:]}'
+        for r, rv, cells in st.get('reads', ()):
+            if cells is None:
+                return f'after {op}: evaluating {r} and its member cells raised {rv[1]}: {rv[2]}'
             self.checked += 1
             if not W.veq(_norm(rv), _norm(trim(cells))):
                 return (f'after {op}: evaluate({r}) = {W.show(rv)} but its member cells evaluate to {W.show(trim(cells))}')
